@@ -183,6 +183,8 @@ def specs(tier):
     add("2d catdate x cat", "two_d", dict(rows=V("catdate", "a", 2, (0,)), cols=V("cat", "b", 2, (1,))))
     add("2d cat x cat unweighted", "two_d", dict(rows=V("cat", "a", 2, (1,)), cols=V("cat", "b", 2, (0,)), weighted=False))
     add("2d cat+sub x cat", "two_d", dict(rows=Vs("cat", "a", 2, (1,), sub=[1, 2]), cols=V("cat", "b", 2, (0,))))
+    add("2d cat+sub (an id repeated in the addend list) x cat", "two_d", dict(rows=Vs("cat", "a", 2, (1,), sub=[1, 2, 2]), cols=V("cat", "b", 2, (0,))))
+    add("1d cat+sub (an id repeated in the addend list)", "one_d", dict(rows=Vs("cat", "a", 3, (0,), sub=[3, 1, 3])))
     add("2d cat x cat+sub", "two_d", dict(rows=V("cat", "a", 2, (1,)), cols=Vs("cat", "b", 2, (2,), sub=[2, 1])))
     add("2d cat+sub x mr", "two_d", dict(rows=Vs("cat", "a", 2, (0,), sub=[1, 2]), cols=V("mr", "b", 2)))
     add("2d mr x cat+sub", "two_d", dict(rows=V("mr", "a", 2), cols=Vs("cat", "b", 2, (1,), sub=[1, 2])))
